@@ -122,6 +122,9 @@ def check_quad(ctx, cs):
             break
 
 
+PREV_TRIM = {}
+
+
 def check_trim(ctx, cs):
     from geomdl import tessellate, BSpline
     ctx.full = cs
@@ -132,17 +135,26 @@ def check_trim(ctx, cs):
     small = {"poly": poly}
     ctx.count(("trim", str(poly)), sample={"op": "trim", **small})
     def run():
+        from geomdl import knotvector
         obj = build(SURFS[0])
         obj.tessellator = tessellate.TrimTessellate()
         t = BSpline.Curve()
         t.degree = 1
-        t.ctrlpts = [[p[0] / float(unit * n), p[1] / float(unit * n)] for p in poly]
-        from geomdl import knotvector
-        t.knotvector = knotvector.generate(1, len(poly))
-        t.sample_size = len(poly)            # degree 1, uniform knots: the samples are exactly the polygon vertices
+
+        def define(pl):
+            t.ctrlpts = [[p[0] / float(unit * n), p[1] / float(unit * n)] for p in pl]
+            t.knotvector = knotvector.generate(1, len(pl))
+            t.sample_size = len(pl)          # degree 1, uniform knots: the samples are exactly the polygon vertices
+        prev = PREV_TRIM.get("poly")
+        define(prev if prev and prev != poly else poly)
         obj.trims = [t]
         obj.sample_size_u, obj.sample_size_v = n + 1, n + 1
         obj.tessellate()
+        if prev and prev != poly:
+            # the SAME trim object is given the loop of this case and the surface is tessellated again: the mesh follows the new loop
+            define(poly)
+            obj.tessellate(force=True)
+        PREV_TRIM["poly"] = poly
         return obj, list(obj.vertices), list(obj.faces)
     ok, r = _try(ctx, "Surface.tessellate[TrimTessellate]", tg, small, run)
     if not ok:
